@@ -2,6 +2,14 @@
 import json, os
 V = os.path.dirname(os.path.dirname(os.path.abspath(__file__)))
 CLAIMED = {
+ 'C19': dict(
+   technique='Coq proof (induction on width / bit extensionality) about a hand-written Gallina model of IntegerWrapper; model tied by exhaustive differential correspondence',
+   text='The clauses of C19 are theorems for all widths and all values (constructor = v mod 2^n, iteration, slice and complemented slice, '
+        'reversal/inversion involutions, popcount, render/parse round trip with ceil(n/k) symbols for 2/4/16-entry tables, both orders) about a '
+        'line-by-line Gallina model of integer_wrapper.py. The model is tied to the class by running operation descriptors on every value '
+        'of their range in Coq (vm_compute) and on the real class (exhaustive small widths, sampled to 128 bits).',
+   note='Trusted: Coq kernel + vm_compute, the hand-written model (bounded by the correspondence), the harness. No axioms.',
+   ref='3 C19'),
  'C16': dict(
    technique='Coq proof (lia) on a Gallina function regenerated from utils.build_mce_rlc by a translator; hand model of rlc_to_mce tied by correspondence',
    text='Every clause of C16 is a theorem over all of Z and all list lengths (flat and nested) about the per-duration function '
